@@ -89,6 +89,33 @@ def run(R):
             if not ok:
                 R.viol("C02.scan.cleanup", "no-cleanup:%s" % gd.label, "a file failing `%s` is not deleted by the start-up scan" % gd.label, sc, sc.lines[0])
             R.inst("C02.scan.cleanup", "K5 must-follow", "file removed when not (%s)" % gd.label if gd.steps == ("Some",) else "file removed when %s" % gd.label, len(edges), ok)
+        # a file that passes every decode check is indexed: no other exit, and no deletion, is reachable on the all-accepting side
+        checks = [CallGuard(["std::path::Path::is_file"], ("true",), "path.is_file()"),
+                  CallGuard(["std::path::Path::file_name", "core::option::Option::and_then", "std::ffi::os_str::OsStr::to_str"], ("Some",), "file name is UTF-8"),
+                  CallGuard([NRS + "::get_data_from_filename"], ("Some",), "file name decodes to a key"),
+                  CallGuard(["std::fs::read"], ("Ok",), "fs::read is Ok"),
+                  CallGuard([GRB], ("Some",), "get_record_from_bytes is Some"),
+                  CallGuard(["ant_protocol::storage::header::RecordHeader::is_record_of_type_chunk"], ("Ok",), "record header parses")]
+        rejects = set()
+        for gd in checks:
+            rejects |= gd.edges(sc)[2]
+        live = g.reach((0,), cut=rejects)
+        somes = set(some.blocks(sc))
+        other_exits = []
+        for b in sc.blocks:
+            if b["cleanup"] or b["id"] not in live or b["id"] in somes:
+                continue
+            if any(st["d"] == [0] for st in b["stmts"]) or (b["term"]["k"] == "call" and b["term"]["d"] == [0]):
+                other_exits.append(b)
+        bad_rm = sorted(rm & live)
+        okc = bool(somes) and not other_exits and not bad_rm
+        for b in other_exits[:1]:
+            ln = next((st["l"] for st in b["stmts"] if st["d"] == [0]), b["term"].get("l"))
+            R.viol("C02.scan.complete", "skipped-valid-file", "the start-up scan can skip (not index) a file that is readable, decrypts under its name's key and parses", sc, ln)
+        for bb in bad_rm[:1]:
+            R.viol("C02.scan.complete", "deletes-valid-file", "the start-up scan can delete a file that is readable, decrypts under its name's key and parses", sc, g.term(bb).get("l"))
+        R.inst("C02.scan.complete", "K4 gate (must-reach)", "every file passing all decode checks is indexed: no deletion and no other exit on the all-accepting side",
+               len(rejects), okc, {"reject_edges": len(rejects), "removals": len(rm)})
         # key ↔ file name ↔ decrypt key agreement
         ta = Taint(sc, through="all")
         keys = ta.closure(call_results([NRS + "::get_data_from_filename"])(sc))
